@@ -5,6 +5,7 @@
 //   c05r <seed> <from> <to> <listfile>      consume reference logs, report reader counters vs header
 //   c08  <seed> <from> <to> <nbase>         every truncation offset of library-written base files (case = global offset index)
 //   c08count <seed> <nbase>                 print number of cases
+#include <atomic>
 #include <Vector/BLF.h>
 #include <fstream>
 #include <set>
@@ -35,6 +36,9 @@ static std::string write_file(const std::string & path, const sg::Seq & s, const
     if (c.tiny_limits) f.verifSetLimits(c.Q, c.B);
     if (prep && !prep_late) prep(f, arg);
     if (prep_late) f.writeRestorePoints = !c.trailer;
+    // every fourth session first fails to open (missing directory / missing file) on the same File: an open() that failed leaves no trace
+    static std::atomic<long> calls{0}; long call = ++calls;
+    if (call % 4 == 2) { f.open((path + ".no-such-dir/x.blf").c_str(), std::ios_base::out); if (call % 8 == 2) f.open((path + ".missing").c_str(), std::ios_base::in); if (f.is_open()) return "open() of a path in a missing directory succeeded"; }
     f.open(path.c_str(), std::ios_base::out);
     if (!f.is_open()) return "open(out) failed";
     if (level_after_open) { struct timespec ts = {0, 3000000}; nanosleep(&ts, nullptr); f.compressionLevel = c.level; }    // the level is configured after open(), before anything is written
@@ -183,7 +187,8 @@ static bool gen_one(uint64_t seed, long idx, const std::string & dir, long K) {
         // reader side on the library-written file
         uint64_t r_usize = 0, r_hdr_usize = 0; uint32_t r_count = 0, r_hdr_count = 0; long r_objects = 0;
         {
-            File f; f.open((base + ".blf").c_str(), std::ios_base::in);
+            File f; static long rcalls = 0; if (++rcalls % 3 == 1) f.open((base + ".missing.blf").c_str(), std::ios_base::in);     // a failed open first, on the same File
+            f.open((base + ".blf").c_str(), std::ios_base::in);
             if (f.is_open()) { while (ObjectHeaderBase * o = f.read()) { delete o; r_objects++; } r_hdr_usize = f.fileStatistics.uncompressedFileSize; r_hdr_count = f.fileStatistics.objectCount; f.close(); r_usize = f.currentUncompressedFileSize; r_count = f.currentObjectCount; }
             else hc::viol("reopen-failed", ctx);
         }
@@ -227,7 +232,8 @@ static int run_c05r(long from, long to, const char * listfile) {
     for (long i = from; i < to && i < (long)files.size(); i++) {
         hc::begin_case(std::to_string(i));
         wd::arm(60, "c05r"); wd::note(files[i].c_str());
-        File f; f.open(files[i].c_str(), std::ios_base::in);
+        File f; if (i % 3 == 1) f.open((files[i] + ".missing").c_str(), std::ios_base::in);     // a failed open first, on the same File
+        f.open(files[i].c_str(), std::ios_base::in);
         if (!f.is_open()) { hc::viol("reference-log-not-opened", files[i]); continue; }
         long n = 0, n115 = 0; while (ObjectHeaderBase * o = f.read()) { if ((unsigned)o->objectType == 115) n115++; delete o; n++; }
         uint64_t hu = f.fileStatistics.uncompressedFileSize; uint32_t hc_ = f.fileStatistics.objectCount;
